@@ -97,6 +97,9 @@ func pathTo(pred map[*ssa.Function]*callgraph.Edge, fn *ssa.Function) []string {
 
 // inLoop reports whether block b lies on a CFG cycle.
 func inLoop(b *ssa.BasicBlock) bool {
+	if s := siteOf(b.Parent()); s != nil && EnclosingTop(b.Parent()) == b.Parent() && inLoop(s.Block()) {
+		return true
+	}
 	seen := map[*ssa.BasicBlock]bool{}
 	work := append([]*ssa.BasicBlock{}, b.Succs...)
 	for len(work) > 0 {
